@@ -111,7 +111,7 @@ class C03Engine(Engine):
     assumptions = ['damage that makes a file undecodable as UTF-8 is outside the property ("any text") and is '
                    'not generated', 'which message or line number is reported is not judged',
                    'BackendException after a successful compile is not a C03 matter']
-    expected_probes = ['surely_invalid_input', 'outcome_api', 'outcome_invalidspec', 'via_cli', 'via_stdin', 'lang_ref_snippet',
+    expected_probes = ['surely_invalid_input', 'surely_invalid_undefined-name', 'surely_invalid_duplicate-definition', 'surely_valid_input', 'outcome_api', 'outcome_invalidspec', 'via_cli', 'via_stdin', 'lang_ref_snippet',
                        'garbage_file', 'fault_fired']
 
     def prepare(self):
@@ -297,12 +297,24 @@ class C03Engine(Engine):
             cfg = specgen.Cfg(max_ns=t.rng(1, 2), max_types=t.rng(1, 5), tag_annotations=True,
                               nested_label_lists=True)
             model = specgen.gen_model(t, cfg)
-            if t.chance(35):
+            dupdef = None
+            how = t.weighted([(35, 'confuse'), (4, 'dup-def'), (5, 'none'), (56, 'damage')])
+            if how == 'confuse':
                 from .. import confuse
                 what = confuse.confuse(t, model)
                 if what:
                     confused = what
                     bump(res['faults'], 'confuse')
+            elif how == 'dup-def':
+                # a whole definition written twice (duplicated write of a block) can never compile
+                import copy
+                cands = [(n, d) for n in model.namespaces.values() for d in n.defs
+                         if isinstance(d, (specgen.Struct, specgen.Union, specgen.Alias, specgen.Route))]
+                if cands:
+                    n, d = cands[t.draw(len(cands))]
+                    n.defs.append(copy.deepcopy(d))
+                    dupdef = '%s %s.%s' % (type(d).__name__, n.name, d.name)
+                    bump(res['faults'], 'dup-def')
             sch = layout.make_schedule(t, model, eols=False)
             files = [[fn.replace('/', '_'), txt] for fn, txt in sch.files]
             channel = 'argv' if sch.channel == 'recursive' else sch.channel
@@ -326,11 +338,16 @@ class C03Engine(Engine):
         applied = []
         if confused:
             nfaults = t.rng(0, 1)
-            applied.append(('confuse', confused.split(' ')[0], '-'))
+            applied.append(('confuse', confused.lstrip('!').split(' ')[0], '-'))
+        elif src == 'model' and dupdef:
+            nfaults = 0
+            applied.append(('dup-def', dupdef.split(' ')[0], '-'))
+        elif src == 'model' and how == 'none':
+            nfaults = 0
         for _ in range(nfaults):
             idx = t.draw(len(files))
             applied.append(self._fault(t, files, idx, res) + (files[idx][0],))
-        changed = [f[1] for f in files] != original or bool(confused)
+        changed = [f[1] for f in files] != original or bool(confused) or (src == 'model' and bool(dupdef))
         if changed:
             bump(res['probes'], 'fault_fired')
         mode = t.weighted([(55, 'direct'), (30, 'cli'), (15, 'stdin')])
@@ -350,7 +367,7 @@ class C03Engine(Engine):
             if mode == 'direct':
                 outcome, detail = self._direct(files)
             else:
-                outcome, detail = self._cli(files, mode, read_sizes, t, res)
+                outcome, detail = self._cli(files, mode, read_sizes, t, res, ensure_nl=not applied)
         except Timeout:
             outcome, detail = 'timeout', 'did not finish within 30 s'
         finally:
@@ -358,14 +375,27 @@ class C03Engine(Engine):
             signal.signal(signal.SIGALRM, old)
         ev.append('outcome %s %s' % (outcome, detail if outcome not in ('api', 'invalidspec') else ''))
         res['steps'] += 1 + len(applied)
-        sure_invalid = (src == 'model' and not confused and len(applied) == 1
-                        and applied[0][0] == 'illegal-char' and str(applied[0][1]).startswith('sure:'))
+        sure_invalid = None
+        if src == 'model' and len(applied) == 1:
+            if not confused and applied[0][0] == 'illegal-char' and str(applied[0][1]).startswith('sure:'):
+                sure_invalid = ('illegal-character', 'a character that no token can contain was inserted '
+                                                     'outside strings and comments')
+            elif confused and confused.startswith('!'):
+                sure_invalid = ('undefined-name', 'a reference was replaced by a name that is defined nowhere '
+                                                  '(%s)' % confused[1:])
+            elif applied[0][0] == 'dup-def':
+                sure_invalid = ('duplicate-definition', 'a whole definition was written twice (%s)' % applied[0][1])
         if sure_invalid:
             bump(res['probes'], 'surely_invalid_input')
+            bump(res['probes'], 'surely_invalid_' + sure_invalid[0])
         if outcome == 'api' and sure_invalid:
-            res['violations'].append({'class': 'accepted-damaged', 'key': 'illegal-character:%s' % mode,
-                                      'detail': 'a character that no token can contain was inserted outside '
-                                                'strings and comments, yet compilation succeeded (%s)' % detail})
+            res['violations'].append({'class': 'accepted-damaged', 'key': '%s:%s' % (sure_invalid[0], mode),
+                                      'detail': '%s, yet compilation succeeded (%s)' % (sure_invalid[1], detail)})
+        if src == 'model' and not applied:
+            bump(res['probes'], 'surely_valid_input')
+            if outcome == 'invalidspec':
+                res['violations'].append({'class': 'refused-valid', 'key': mode,
+                                          'detail': 'an undamaged generated spec was refused: %s' % detail})
         if outcome == 'api':
             bump(res['probes'], 'outcome_api')
         elif outcome == 'invalidspec':
@@ -416,7 +446,7 @@ class C03Engine(Engine):
             return 'foreign-path'
         return None
 
-    def _cli(self, files, mode, read_sizes, tape, res):
+    def _cli(self, files, mode, read_sizes, tape, res, ensure_nl=False):
         from ..runcli import run_cli
         bump(res['probes'], 'via_cli')
         scratch = scratch_dir('c03')
@@ -440,7 +470,10 @@ class C03Engine(Engine):
             sizes = None
             if mode == 'stdin':
                 bump(res['probes'], 'via_stdin')
-                stdin = ''.join(txt for _, txt in files).encode('utf-8')
+                # `cat a b | stone`: damaged files are concatenated as they are; for an undamaged model
+                # (which must compile) every file ends with a newline, as C11 delivers it
+                stdin = ''.join((txt if txt.endswith('\n') or not ensure_nl else txt + '\n')
+                                for _, txt in files).encode('utf-8')
                 n = read_sizes or tape.choice([1, 3, 64, 4096])
                 sizes = lambda: n  # noqa
                 argv = ['python_types', outdir, '--', '-p', 'pkg'] if tape.chance(50) else \
